@@ -117,45 +117,66 @@ Proof. by []. Qed.
 Lemma mem_prs i p : (p \in [seq p <- iota 0 i.+1 | prime p]) = prime p && (p <= i).
 Proof. by rewrite mem_filter mem_iota /= add0n ltnS. Qed.
 
-Lemma outer_step_target n i : 0 < i -> i.+1 < n -> outer_step n (target n i) i.+1 = target n i.+1.
+(** the table after the `if mnp[i] == 0 { .. }` block of outer step j = i+1 *)
+Definition mnp1 (n i : nat) : seq nat := mkseq (fun m => if m == i.+1 then pdiv i.+1 else expected i m) n.
+(** the primes whose multiple is written by the inner loop of outer step j, in order *)
+Definition wlist (n j : nat) : seq nat :=
+  [seq p <- [seq p <- iota 0 j.+1 | prime p] | ~~ ((pdiv j < p) || (n <= p * j))].
+
+Lemma cell_is_zero n i : 0 < i -> i.+1 < n -> (nth 0 (mnp (target n i)) i.+1 == 0) = prime i.+1.
 Proof.
-move=> i0 jn; set j := i.+1 in jn *.
-have j0 : 0 < j by [].
-rewrite /outer_step /= nth_mkseq // expected_next //.
-(* the state after the `if mnp[i] == 0` block, whichever branch is taken *)
-set s1 := (if _ then _ else _).
-pose ps := [seq p <- iota 0 j.+1 | prime p].
-have -> : s1 = St (mkseq (fun m => (m <= j) && prime m) n)
-                  (mkseq (fun m => if m == j then pdiv j else expected i m) n)
-                  ps.
-  rewrite /ps /s1 {s1}; have pj0 : pdiv j == 0 = false by apply/negbTE; rewrite -lt0n pdiv_gt0.
-  have iotaE : iota 0 j.+1 = rcons (iota 0 j) j by rewrite -addn1 iotaD /= add0n cats1.
-  case pj: (prime j); rewrite ?eqxx ?pj0 /target.
-  - rewrite !set_nth_mkseq // iotaE filter_rcons pj; congr St; apply: eq_mkseq => m.
-    + by rewrite [m <= j]leq_eqVlt ltnS; case: eqP => [->|] //=; rewrite pj.
-    + by case: eqP => // _; rewrite pdiv_id.
-  - rewrite iotaE filter_rcons pj; congr St; apply: eq_mkseq => m.
-    + by rewrite [m <= j]leq_eqVlt ltnS; case: eqP => [->|] //=; rewrite pj andbF.
-    + case: eqP => // ->; rewrite expected_next // pj //.
-rewrite /target /= -/ps; congr St.
-rewrite inner_takewhile //; last by rewrite /ps mem_prs.
-rewrite /inner_tw nth_mkseq // eqxx.
-rewrite takewhile_filter; first last.
+move=> i0 jn; rewrite /= nth_mkseq // expected_next //.
+by case: (prime i.+1); rewrite ?eqxx // (gtn_eqF (pdiv_gt0 _)).
+Qed.
+
+Lemma if_block n i : 0 < i -> i.+1 < n ->
+  (if nth 0 (mnp (target n i)) i.+1 == 0
+   then St (set_nth false (isp (target n i)) i.+1 true) (set_nth 0 (mnp (target n i)) i.+1 i.+1)
+           (rcons (prs (target n i)) i.+1)
+   else target n i)
+  = St (mkseq (fun m => (m <= i.+1) && prime m) n) (mnp1 n i) [seq p <- iota 0 i.+2 | prime p].
+Proof.
+move=> i0 jn; rewrite cell_is_zero //; set j := i.+1 in jn *.
+have iotaE : iota 0 j.+1 = rcons (iota 0 j) j by rewrite -addn1 iotaD /= add0n cats1.
+rewrite /mnp1 -/j; case pj: (prime j); rewrite /target.
+- rewrite [isp _]/= [mnp _]/= [prs _]/= !set_nth_mkseq // iotaE filter_rcons pj.
+  congr St; apply: eq_mkseq => m.
+  + by rewrite [m <= j]leq_eqVlt ltnS; case: eqP => [->|] //=; rewrite pj.
+  + by case: eqP => // _; rewrite pdiv_id.
+- rewrite iotaE filter_rcons pj; congr St; apply: eq_mkseq => m.
+  + by rewrite [m <= j]leq_eqVlt ltnS; case: eqP => [->|] //=; rewrite pj andbF.
+  + by case: eqP => // ->; rewrite expected_next // pj.
+Qed.
+
+Lemma mem_wlist n j q : 0 < j -> (q \in wlist n j) = written n j q.
+Proof.
+move=> j0; rewrite mem_filter mem_prs negb_or -leqNgt -ltnNge /written.
+case pq: (prime q) => //=; rewrite ?andbF //.
+case qle: (q <= pdiv j) => //=.
+by rewrite (leq_trans qle) ?andbT // pdiv_leq.
+Qed.
+
+Lemma takewhile_wlist n j :
+  takewhile (fun p => ~~ ((pdiv j < p) || (n <= p * j))) [seq p <- iota 0 j.+1 | prime p] = wlist n j.
+Proof.
+rewrite takewhile_filter //.
+- by rewrite sorted_filter ?iota_sorted //; exact: leq_trans.
 - move=> x y xy; rewrite !negb_or -!leqNgt -!ltnNge => /andP [yp yn].
   by rewrite (leq_trans xy yp) (leq_ltn_trans _ yn) // leq_mul2r xy orbT.
-- by rewrite sorted_filter ?iota_sorted //; exact: leq_trans.
-set W := [seq p <- ps | _].
-have memW q : (q \in W) = written n j q.
-  rewrite mem_filter mem_prs negb_or -leqNgt -ltnNge /written.
-  case pq: (prime q) => //=; rewrite ?andbF //.
-  case qle: (q <= pdiv j) => //=.
-  by rewrite (leq_trans qle) ?andbT // pdiv_leq.
-apply: (@eq_from_nth _ 0).
-  rewrite size_writes !size_mkseq //.
-  by apply/allP => q; rewrite memW => /and3P [].
-move=> m; rewrite size_writes ?size_mkseq; last first.
-  by apply/allP => q; rewrite memW => /and3P [].
-move=> mn; rewrite nth_writes // memW !nth_mkseq //.
+Qed.
+
+Lemma outer_step_target n i : 0 < i -> i.+1 < n -> outer_step n (target n i) i.+1 = target n i.+1.
+Proof.
+move=> i0 jn; rewrite /outer_step if_block //; set j := i.+1 in jn *.
+have j0 : 0 < j by [].
+pose ps := [seq p <- iota 0 j.+1 | prime p]; rewrite -/ps /target /=; congr St.
+rewrite inner_takewhile //; last by rewrite /ps mem_prs.
+rewrite /inner_tw /mnp1 nth_mkseq // eqxx /ps takewhile_wlist.
+have inr : all (fun p => p * j < n) (wlist n j).
+  by apply/allP => q; rewrite mem_wlist // => /and3P [].
+apply: (@eq_from_nth _ 0); first by rewrite size_writes !size_mkseq.
+move=> m; rewrite size_writes ?size_mkseq // => mn.
+rewrite nth_writes // mem_wlist // !nth_mkseq //.
 exact: cell_step.
 Qed.
 
